@@ -92,6 +92,7 @@ func c14(c *Ctx) {
 		return
 	}
 	c14SeqCompare(c)
+	c14ChecksumFold(c)
 	// ---- (1) roles in send()
 	th := fieldStoresIn(send, "Header")
 	// two Header types (tcp, ipv4) share the name: split by field presence
